@@ -7,11 +7,11 @@ W=$(mktemp -d /tmp/ofreplay.XXXXXX)
 [ -n "$KEEP" ] || trap 'rm -rf "$W"' EXIT; [ -n "$KEEP" ] && echo "workdir $W"
 HERE=$(cd $(dirname $0) && pwd)
 SRCS=$(find $REPO/src -name '*.c' | grep -v ldpc_from_file)
-(cd $W && clang -g -O1 -fsanitize=address,undefined -fno-omit-frame-pointer -DOPENFEC_LITTLE_ENDIAN -DNDEBUG -w -c $SRCS -I$REPO/src 2>&1 | head -5)
+(cd $W && clang -g -O1 -fsanitize=address,undefined -fno-omit-frame-pointer -DOPENFEC_LITTLE_ENDIAN -DNDEBUG $EXTRA_CFLAGS -w -c $SRCS -I$REPO/src 2>&1 | head -5)
 [ $# -eq 0 ] && set -- $HERE/d*.c
 for t in "$@"; do
   n=$(basename $t .c)
-  clang -g -O1 -fsanitize=address,undefined -DOPENFEC_LITTLE_ENDIAN -w -I$HERE -I$REPO/src/lib_common -I$REPO/src $t $W/*.o -lm -o $W/$n.exe 2>&1 | head -5
+  clang -g -O1 -fsanitize=address,undefined -DOPENFEC_LITTLE_ENDIAN $EXTRA_CFLAGS -w -I$HERE -I$REPO/src/lib_common -I$REPO/src $t $W/*.o -lm -o $W/$n.exe 2>&1 | head -5
   ASAN_OPTIONS=detect_leaks=1 $W/$n.exe > $W/$n.out 2>&1; rc=$?
   echo "== $n rc=$rc"
   grep -E "^RESULT|^codec|^accepted|^rejected|^k=" $W/$n.out | head -${VERBOSE:-4} | cut -c1-200
